@@ -115,7 +115,8 @@ def _run_check(prop, tier, seed, replay):
         rep.coverage["trusted_base"] = C.TRUSTED_BASE + getattr(mod, "TRUSTED_EXTRA", [])
         rep.coverage["theorems"] = names
         mod.run(ctx)
-        if not ctx["proof_ok"] and not any(v["found_input"] for v in rep.violations):
+        # a broken obligation is reported unless the search produced a failing input for it (a listed open finding is not one)
+        if not ctx["proof_ok"] and not rep.unlisted_inputs():
             broken = C.failing_lemmas(ctx.get("build_log"))
             rep.violation(dict(kind="proof-obligation", files=ctx.get("build_failed")),
                           "proof obligations of %s no longer check: %s%s" % (prop, ctx.get("build_failed"),
